@@ -47,6 +47,13 @@ def c12_violation(rows, nf, unaligned=False):
     exp = [(1 if 2 * int(k) >= n else 0) for k in ls] if n > 1 else [int(k) for k in ls]
     if [int(x) for x in c] != exp:
         return "centroid is not the majority vote with ties set"
+    from bblean.utils import min_safe_uint
+    if [int(x) for x in S.centroid_from_sum(A.sum(axis=0, dtype=min_safe_uint(n)), n, pack=False)] != exp:
+        return "centroid_from_sum on minimal-width sums is not the majority vote"
+    if [int(x) for x in S.centroid(A, input_is_packed=False, pack=False)] != exp:
+        return "centroid(fps) is not the majority vote with ties set"
+    if [int(x) for x in np.unpackbits(S.centroid(X, input_is_packed=True, n_features=nf, pack=True), count=nf)] != exp:
+        return "centroid(packed fps) is not the majority vote with ties set"
     cp = S.centroid_from_sum(ls, n, pack=True)
     if [int(x) for x in np.unpackbits(cp, count=nf)] != exp:
         return "packed centroid differs from unpacked centroid"
@@ -76,7 +83,9 @@ def search_c12(seed, tier, failures):
             if v:
                 return {"rows": d["rows"], "nf": d["nf"], "unaligned": d.get("unaligned", False),
                         "violation": v}
-    for rows, nf, una in gen_cases(seed + 1, "thorough" if tier == "thorough" else "quick"):
+    cases = gen_cases(seed + 1, "thorough" if tier == "thorough" else "quick")
+    tall = [c for c in gen_cases(seed + 2, "thorough") if len(c[0]) >= 100]
+    for rows, nf, una in tall + cases:
         v = c12_violation(rows, nf, una)
         if v:
             return {"rows": rows, "nf": nf, "unaligned": una, "violation": v}
@@ -88,3 +97,160 @@ def replay_c12(payload):
     if not fi:
         return True
     return c12_violation(fi["rows"], fi["nf"], fi.get("unaligned", False)) is None
+
+
+# ------------------------------------------------------------------ C11
+def exact_isim(ks, n):
+    num = sum(k * (k - 1) // 2 for k in ks)
+    den = num + sum(k * (n - k) for k in ks)
+    return Fraction(num, den) if den else None
+
+
+def c11_violation(ks, n, bits=64):
+    import bblean.similarity as S
+    dt = {8: np.uint8, 16: np.uint16, 32: np.uint32, 64: np.uint64}[bits]
+    a = np.array(ks, dtype=dt)
+    if n < 2 or n * sum(ks) >= 2 ** 63 or max(ks + [0]) > n:
+        return None
+    v = float(S.jt_isim_from_sum(a, n))
+    if sum(ks) == 0:
+        return None if v == 1.0 else f"isim of all-empty set is {v!r}, expected 1"
+    ex = exact_isim(ks, n)
+    # correctly rounded in the exact regime, within 16 ulp-units of relative error above it
+    if n * sum(ks) < 2 ** 52:
+        if Fraction(v) != Fraction(float(ex)):
+            return f"isim={v!r} differs from the correctly rounded exact value {float(ex)!r}"
+    elif abs(Fraction(v) - ex) > ex * Fraction(16, 2 ** 53):
+        return f"isim={v!r} farther than 16*2^-53 (relative) from the exact value {float(ex)!r}"
+    # radius complement through its defining identity (exact rational arithmetic)
+    c = [1 if 2 * k >= n else 0 for k in ks] if n > 1 else list(ks)
+    ks1 = [k + b for k, b in zip(ks, c)]
+    e1 = exact_isim(ks1, n + 1) if sum(ks1) else Fraction(1)
+    rc_exact = (e1 * (n + 1) - ex * (n - 1)) / 2
+    rc = float(S.jt_isim_radius_compl_from_sum(a, n))
+    if abs(Fraction(rc) - rc_exact) > Fraction(1, 10 ** 6) * (1 + abs(rc_exact)) * max(1, n) / 2 ** 20 + Fraction(n, 2 ** 40):
+        return f"radius complement {rc!r} differs from its defining identity {float(rc_exact)!r}"
+    if float(S.jt_isim_radius_from_sum(a, n)) != 1 - rc:
+        return "radius != 1 - radius complement"
+    if float(S.jt_isim_diameter_from_sum(a, n)) != 1 - v:
+        return "diameter != 1 - isim"
+    return None
+
+
+def search_c11(seed, tier, failures):
+    from suite_isim import gen_cases
+    for kind, d in failures:
+        if isinstance(d, dict) and "ks" in d:
+            v = c11_violation(d["ks"], d["n"], d.get("dtype_bits", 64))
+            if v:
+                return {"ks": d["ks"], "n": d["n"], "dtype_bits": d.get("dtype_bits", 64), "violation": v}
+    for ks, n, bits in gen_cases(seed + 1, tier):
+        v = c11_violation(ks, n, bits)
+        if v:
+            return {"ks": ks, "n": n, "dtype_bits": bits, "violation": v}
+    return None
+
+
+def replay_c11(payload):
+    fi = payload.get("failing_input")
+    if not fi:
+        return True
+    return c11_violation(fi["ks"], fi["n"], fi.get("dtype_bits", 64)) is None
+
+
+# ------------------------------------------------------------------ C10
+def c10_call(crit, tol, thr, old, old_n, nom, nom_n, obj=None):
+    import bblean._merges as M
+    from bblean.utils import min_safe_uint
+    new = [a + b for a, b in zip(old, nom)]
+    new_n = old_n + nom_n
+    if obj is None:
+        obj = M.get_merge_accept_fn(crit, 0.05 if tol is None else tol)
+    return bool(obj(thr, np.array(new, dtype=min_safe_uint(new_n)), new_n,
+                    np.array(old, dtype=min_safe_uint(old_n)),
+                    np.array(nom, dtype=min_safe_uint(nom_n)), old_n, nom_n))
+
+
+def c10_violation(case, history=()):
+    """Laws of C10 on the real callables for one argument tuple; `history` is a list of
+    earlier argument tuples fed to the same object first (purity)."""
+    import bblean._merges as M
+    import bblean.similarity as S
+    crit, tol, thr, old, old_n, nom, nom_n = case[:7]
+    fresh = c10_call(crit, tol, thr, old, old_n, nom, nom_n)
+    obj = M.get_merge_accept_fn(crit, 0.05 if tol is None else tol)
+    for h in history:
+        c10_call(h[0], h[1], h[2], h[3], h[4], h[5], h[6], obj)
+    used = c10_call(crit, tol, thr, old, old_n, nom, nom_n, obj)
+    if used != fresh:
+        return f"impure: fresh object says {fresh}, object with call history says {used}"
+    if crit == "never-merge" and fresh:
+        return "never-merge accepted"
+    new = np.array([a + b for a, b in zip(old, nom)], dtype=np.uint64)
+    new_n = old_n + nom_n
+    stat = S.jt_isim_radius_compl_from_sum if "radius" in crit else S.jt_isim_from_sum
+    sv = float(stat(new, new_n))
+    if fresh and sv == sv and sv < thr:
+        return f"accepted although statistic {sv!r} < threshold {thr!r}"
+    if fresh:
+        for t2 in (thr / 2, 0.0, float(np.nextafter(thr, -1.0))):
+            if t2 <= thr and not c10_call(crit, tol, t2, old, old_n, nom, nom_n):
+                return f"accepted at {thr!r} but rejected at lower threshold {t2!r}"
+    if crit in ("tolerance-diameter", "tolerance-radius"):
+        base = sv >= thr
+        if old_n == 1 and fresh != base:
+            return "singleton old cluster: tolerance variant differs from base criterion"
+        if old_n >= 1000 and old_n > 1:
+            ov = float(stat(np.array(old, dtype=np.uint64), old_n))
+            if fresh != (base and sv >= ov):
+                return "old cluster >= 1000: slack should be zero"
+        if old_n > 1 and fresh:
+            ov = float(stat(np.array(old, dtype=np.uint64), old_n))
+            slack = max((0.05 if tol is None else tol) * (math.exp(-1e-3 * old_n) - math.exp(-1.0)), 0.0)
+            if sv < ov - slack - 1e-12:
+                return f"accepted although merged statistic {sv!r} < old {ov!r} - slack {slack!r}"
+    return None
+
+
+def search_c10(seed, tier, failures):
+    hist_cases = []
+    for kind, d in failures:
+        if isinstance(d, dict) and "case" in d:
+            hist_cases.append(d["case"])
+    for c in hist_cases:
+        v = c10_violation(c)
+        if v:
+            return {"case": list(c[:7]), "history": [], "violation": v}
+    # purity with call history: every disagreeing case preceded by the others
+    for c in hist_cases:
+        others = [h for h in hist_cases if h is not c and h[0] == c[0]][:30]
+        v = c10_violation(c, others)
+        if v:
+            return {"case": list(c[:7]), "history": [list(h[:7]) for h in others], "violation": v}
+    import itertools
+    rng = random.Random(seed + 5)
+    groups = {}
+    for n in (4, 5, 6):
+        for ks in itertools.combinations_with_replacement(range(n + 1), 3):
+            groups.setdefault((n, sum(ks), sum(k * k for k in ks)), []).append(list(ks))
+    import hist
+    for (n, _, _), vs in groups.items():
+        if len(vs) < 2:
+            continue
+        for crit in hist.CRITS:
+            for nom in ([1, 0, 1], [0, 1, 0], [1, 1, 1]):
+                for tol, thr in ((0.05, 0.1), (0.0, 0.3), (1.0, 0.0)):
+                    cs = [(crit, tol if crit in hist.HAS_TOL else None, thr, o, n, nom, 1) for o in vs[:3]]
+                    for i, c in enumerate(cs):
+                        v = c10_violation(c, [x for j, x in enumerate(cs) if j != i])
+                        if v:
+                            return {"case": list(c), "history": [list(x) for j, x in enumerate(cs) if j != i],
+                                    "violation": v}
+    return None
+
+
+def replay_c10(payload):
+    fi = payload.get("failing_input")
+    if not fi:
+        return True
+    return c10_violation(tuple(fi["case"]), [tuple(h) for h in fi.get("history", [])]) is None
